@@ -572,11 +572,25 @@ class Body:
         # a single-assignment local whose value was computed from a re-assignable variable is a SNAPSHOT of that
         # variable: expanding it at a use far from its definition would pretend the variable is read there.
         # Only compiler temporaries used in the block that defines them are expanded.
-        if _reads_variable(r) and re.match(r"^(bool|char|[iu](8|16|32|64|128|size)|f32|f64)$", self.ltypes.get(l, "")):
+        scalar = re.match(r"^(bool|char|[iu](8|16|32|64|128|size)|f32|f64)$", self.ltypes.get(l, ""))
+        if _reads_variable(r) and scalar:
             if not self._used_only_in_block(l, bb):
                 r = T("var", l, self.dbg.get(l, ""), 0)
+        elif scalar and self.dbg.get(l) and _reads_memory(r, self) and self._used_in_a_loop_that_does_not_define(l, bb):
+            # a named scalar computed from memory (a length, an element) BEFORE a loop and used inside it is a snapshot
+            # too: the memory may be written by the loop between iterations
+            r = T("var", l, self.dbg.get(l, ""), 0)
         self._gterm[l] = r
         return r
+
+    def _used_in_a_loop_that_does_not_define(self, l, bb):
+        self._used_only_in_block(l, bb)     # fills _use_blocks
+        uses = self._use_blocks.get(l, set())
+        for h, blks in self.loops().items():
+            if bb not in blks and any(u in blks for u in uses):
+                if not self.loop_readonly(h):
+                    return True
+        return False
 
     def _used_only_in_block(self, l, bb):
         if not hasattr(self, "_use_blocks"):
@@ -963,6 +977,24 @@ def _scan_calls_writes(b):
                 if a["k"] == "const" and "fn" in a["c"]:
                     calls.add(a["c"]["fn"])
     return calls, writes
+
+
+def _reads_memory(t, body=None):
+    """does the term read memory that can be written later?  (fields/lengths/elements below a `&mut` parameter or a
+    re-assignable local; what hangs off a shared `&T` parameter cannot change)"""
+    def mutable_root(x):
+        while isinstance(x, tuple) and x and x[0] in ("field", "index", "len", "clone", "iter", "elem", "empty", "cast"):
+            x = x[1]
+        if isinstance(x, tuple) and x and x[0] == "param":
+            ty = body.ltypes.get(x[1], "") if body is not None else "&mut"
+            return ty.startswith("&mut") or not ty.startswith("&")
+        return isinstance(x, tuple) and bool(x) and x[0] in ("var", "loopvar")
+    for s_ in subterms(t):
+        if isinstance(s_, tuple) and s_ and s_[0] in ("len", "index", "empty") and mutable_root(s_[1]):
+            return True
+        if isinstance(s_, tuple) and s_ and s_[0] == "in" and mutable_root(s_[2]):
+            return True
+    return False
 
 
 def _pure_local_predicates(facts):
